@@ -62,12 +62,14 @@ Fixpoint upd {A} (l : list A) (n : nat) (x : A) : list A :=
 (* the target of an object-level declaration: an instance or a class object *)
 Inductive target := TInst (o : obj) | TCls (c : cls).
 
-(* One step of a history.  [NewClass bases] creates class number (#classes so far) — a class's
-   bases never change afterwards; [NewInstance c] creates instance number (#instances so far).
+(* One step of a history.  [NewClass bases meta] creates class number (#classes so far) — a class's
+   bases never change afterwards; [meta = None]: the metaclass is ``type``; [meta = Some l]: the
+   class is created with a custom metaclass (fixed during the history, possibly derived from other
+   metaclasses) whose specification implementedBy(metaclass) names the interfaces l directly; [NewInstance c] creates instance number (#instances so far).
    The nine declaration calls; decorators are applied as calls ([Implementer c l] is
    implementer applied to l and then to class c, [Provider t l] likewise). *)
 Inductive op :=
-| NewClass (bases : list cls)
+| NewClass (bases : list cls) (meta : option (list iface))
 | NewInstance (c : cls)
 | DropInstance (o : obj)
 | Implementer (c : cls) (l : list iface)
